@@ -962,10 +962,16 @@ class Interp:
     # expressions
     def eval_slice(self, s, env, frame, cond):
         if isinstance(s, ast.Slice):
-            return ('slice',
-                    NONE if s.lower is None else self.eval(s.lower, env, frame, cond),
+            lower = NONE if s.lower is None else self.eval(s.lower, env, frame, cond)
+            step = NONE if s.step is None else self.eval(s.step, env, frame, cond)
+            # a[0:n] is a[:n] and a[i:j:1] is a[i:j]: one spelling
+            if lower == num(0) and step in (NONE, num(1)):
+                lower = NONE
+            if step == num(1):
+                step = NONE
+            return ('slice', lower,
                     NONE if s.upper is None else self.eval(s.upper, env, frame, cond),
-                    NONE if s.step is None else self.eval(s.step, env, frame, cond))
+                    step)
         if isinstance(s, ast.Tuple):
             return ('tuple', tuple(self.eval_slice(e, env, frame, cond)
                                    for e in s.elts))
